@@ -25,7 +25,8 @@ THEOREMS = [
     # the table forms: sort_nodes_ (in place, also the step of read_swc(sort_nodes=True)) and sort_nodes (copying, with its frame statement)
     "C05.sortNodes_refines", "C05.generated_sort_nodes_inplace_ok", "C05.generated_sort_nodes_ok",
 ]
-TRUSTED = ["hand-written model Model/Sort.lean of sort_nodes_impl (tied by the c05.sort correspondence suite: new parents, row indices and id map compared exactly)"]
+TRUSTED = ["imperative translator + the glue of sort_tree (harness/algo_specs/72_helpers.py: `tree.copy()` is the local columns), _sort_tree (translate_algo.py), sort_nodes_ / sort_nodes (50_repair.py, 51_ctor.py), cross-checked by the gsorttree / gcopying lines",
+           "hand-written model Model/Sort.lean of sort_nodes_impl (tied by the c05.sort correspondence suite: new parents, row indices and id map compared exactly)"]
 ASSUMPTIONS = [
     "numpy boolean-mask indexing `old_ids[old_pids == old_id]` returns the matching ids in table order; dict(zip(ids, range)) is the position of an id (ids distinct)",
     "pandas/numpy column permutation `col[indices]` is `indices.map col`",
